@@ -115,7 +115,7 @@ def run(chk):
         if rc != 0:
             begun = [r["begin"] for r in recs if "begin" in r]
             bad = inputs[begun[-1]] if begun else None
-            kind = "timeout" if rc == -9 else "crash/sanitizer"
+            kind = "timeout" if rc in (-9, 75) else "crash/sanitizer"
             chk.violation("c13:abort:%s" % json.dumps(bad and bad["rules"]), "LRParser (ASan/UBSan build) did not return (%s, exit %s) for grammar %s: %s"
                           % (kind, rc, bad and bad["rules"], err[-1500:]), {"grammar": bad and bad["rules"], "stderr": err[-3000:]})
     nruns = 0
